@@ -741,7 +741,7 @@ func main() {
 			}
 			return 78 * time.Second
 		},
-		Rule: "BFS over histories of Interest arrivals (names /localhost/x, /localhost/nfd/y, /localhop/z, /a, / and /localhost with CanBePrefix; with and without a HopLimit element (1, 2, 255); from local L1 and non-local N2/N3/N4; NextHopFaceId -> N2 / L5 / L1 on the local-fields face L1, on N2 (local fields disabled) and on the NON-LOCAL face N4 with local fields enabled), Data arrivals (same names, from L5/N2/L1, no token or echo of a live upstream token) clock steps and the destruction of the non-local face N2 (after which packets it delivered earlier still arrive), on one real fw.Thread with leaky FIBs (default route and /localhost route to non-local N2, /localhost/nfd -> {L5,N2}), best-route or multicast on /, cache on/off, FIB tree/hash table; in the configurations that go through the real NDNLPLinkService also frames on which the PEER put an IncomingFaceId header (naming L5 / L1 / N2) on the non-local face N4 with all three local-fields options (consumer-controlled forwarding, incoming face indication, local cache policy) and on N2 without, Interests and Data; FIB universes (fibmix configurations): the first step installs the FIB entry that covers the probe name (/localhost/nfd below a /localhost -> N2 entry, or /localhost) with the local producer L5 at cost 1 and every subset of the non-local faces {N2,N3} at cost 0|1|2 in every insertion order (134 universes), non-local next hops are added/removed between packets; separately an exhaustive sweep of 24192 received frames (lpsweep.go: 8 option combinations of the receiving non-local face x 2 base states x 3 packets under /localhost x IncomingFaceId absent|L1|L5|N2|self|missing|0 x NextHopFaceId absent|L5|N2 x PitToken absent|live or well-formed|4 bytes x CachePolicy x CongestionMark x NonDiscovery) through the real link service, each on a fresh forwarder; separately an exhaustive sweep of the optional fields of the Interest itself (l3sweep.go, quick 46656 / thorough 414720 Interests under /localhost received on a non-local face: arrival face N2|N4 x copied|real link service x base state empty|same Interest pending from L1|matching Data cached x name/CanBePrefix/MustBeFresh x forwarding hint none|routed to a non-local face|routed to a local application|under /localhost|inside the producer region|unrouted|two delegations in both orders x NextHopFaceId x HopLimit x InterestLifetime x PitToken x Nonce), each on a fresh forwarder; forwarding hints (routed, inside the producer region /r) on /localhost Interests from non-local faces are also part of the BFS alphabet; C09.out checked on every SendPacket of every step and of the probes - on the decoded packet, on the bytes handed over, again through the OutPkt the face keeps once the pipeline call has returned, and in the 'defer' configurations (backlogged non-local faces that drain only at clock steps; full alphabet with de-duplication on tables + queued packets, and a content-store alphabet of 9 ops without de-duplication) after every later step and probe for as long as the packet is queued (wire.go), C09.in by comparing the complete white-box dump before/after each rejected packet, C09.local by a fetch-twice probe in every explored state",
+		Rule: "BFS over histories of Interest arrivals (names /localhost/x, /localhost/nfd/y, /localhop/z, /a, / and /localhost with CanBePrefix; with and without a HopLimit element (1, 2, 255); from local L1 and non-local N2/N3/N4; NextHopFaceId -> N2 / L5 / L1 on the local-fields face L1, on N2 (local fields disabled) and on the NON-LOCAL face N4 with local fields enabled), Data arrivals (same names, from L5/N2/L1, no token or echo of a live upstream token) clock steps and the destruction of the non-local face N2 (after which packets it delivered earlier still arrive), on one real fw.Thread with leaky FIBs (default route and /localhost route to non-local N2, /localhost/nfd -> {L5,N2}), best-route or multicast on /, cache on/off, FIB tree/hash table; in the configurations that go through the real NDNLPLinkService also frames on which the PEER put an IncomingFaceId header (naming L5 / L1 / N2) on the non-local face N4 with all three local-fields options (consumer-controlled forwarding, incoming face indication, local cache policy) and on N2 without, Interests and Data; FIB universes (fibmix configurations): the first step installs the FIB entry that covers the probe name (/localhost/nfd below a /localhost -> N2 entry, or /localhost) with the local producer L5 at cost 1 and every subset of the non-local faces {N2,N3} at cost 0|1|2 in every insertion order (134 universes), non-local next hops are added/removed between packets; separately an exhaustive sweep of 24192 received frames (lpsweep.go: 8 option combinations of the receiving non-local face x 2 base states x 3 packets under /localhost x IncomingFaceId absent|L1|L5|N2|self|missing|0 x NextHopFaceId absent|L5|N2 x PitToken absent|live or well-formed|4 bytes x CachePolicy x CongestionMark x NonDiscovery) through the real link service, each on a fresh forwarder; separately an exhaustive sweep of the optional fields of the Interest itself (l3sweep.go, quick 20736 / thorough 414720 Interests under /localhost received on a non-local face: arrival face N2|N4 x copied|real link service x base state empty|same Interest pending from L1|matching Data cached x name/CanBePrefix/MustBeFresh x forwarding hint none|routed to a non-local face|routed to a local application|under /localhost|inside the producer region|unrouted|two delegations in both orders x NextHopFaceId x HopLimit x InterestLifetime x PitToken x Nonce), each on a fresh forwarder; forwarding hints (routed, inside the producer region /r) on /localhost Interests from non-local faces are also part of the BFS alphabet; C09.out checked on every SendPacket of every step and of the probes - on the decoded packet, on the bytes handed over, again through the OutPkt the face keeps once the pipeline call has returned, and in the 'defer' configurations (backlogged non-local faces that drain only at clock steps; full alphabet with de-duplication on tables + queued packets, and a content-store alphabet of 9 ops without de-duplication) after every later step and probe for as long as the packet is queued (wire.go), C09.in by comparing the complete white-box dump before/after each rejected packet, C09.local by a fetch-twice probe in every explored state",
 		Assumptions: []string{
 			"faces are simulated at the dispatch.Face seam (verif/harness/fwsim): Scope() of the fake face is what the thread consults; NextHopFaceId is copied into the packet only on faces with local fields enabled, as NDNLPLinkService.handleIncomingFrame does",
 			"L5 is a pure producer (never sends Interests), so it is never excluded as a next hop for holding an in-record",
